@@ -57,7 +57,11 @@ def fingerprint(node, procs_seen=None, count=None):
             return ("S",) + tuple(sorted(map(repr, n)))
         if isinstance(n, dict):
             return ("D",) + tuple((go(k), go(v)) for k, v in n.items())
-        return ("?", type(n).__name__, repr(n)[:80])
+        if hasattr(n, "__dataclass_fields__"):
+            return (type(n).__name__,) + tuple(go(getattr(n, f)) for f in n.__dataclass_fields__)
+        if type(n).__name__ == "AEnv":
+            return ("AEnv", go(n.bindings), tuple(sorted(repr(x) for x in n.names)))
+        return ("?", type(n).__name__)
 
     return hash(go(node))
 
@@ -108,3 +112,39 @@ def stmt_paths(proc, max_n=None):
 
     rec(proc.body, [], "body")
     return out
+
+
+CACHE_NAMES = (
+    "_simple_proc_cache",
+    "_globenv_proc_cache",
+    "_proc_effs_cache",
+    "_proc_changeset_cache",
+    "_overapprox_proc_cache",
+)
+
+
+def cache_snapshot(seen: dict):
+    """C07 item 5: analysis caches keyed by procedure hold lists/sets/environments
+    that are shared by reference with every later analysis.  Records a
+    fingerprint of every entry the first time it is seen and returns the list of
+    (cache name, proc name) whose value changed since."""
+    from exo.rewrite import new_eff as NE
+
+    changed = []
+    for cn in CACHE_NAMES:
+        cache = getattr(NE, cn, None)
+        if not isinstance(cache, dict):
+            continue
+        for k, v in list(cache.items()):
+            key = (cn, id(k))
+            try:
+                fp = fingerprint(v)
+            except RecursionError:
+                continue
+            old = seen.get(key)
+            if old is None:
+                seen[key] = (k, fp)  # keep k alive so ids stay unique
+            elif old[1] != fp:
+                seen[key] = (k, fp)
+                changed.append((cn, str(getattr(k, "name", "?"))))
+    return changed
